@@ -232,6 +232,8 @@ def gen_scenario(root, profile=None):
     # points_to_evaluate spec: resolved at build time against the space
     if r.chance(p["p_pte"]):
         sched["pte"] = {"n": r.randint(0, 3), "partial": r.chance(0.5), "dup": r.chance(0.3), "seed": r.randint(0, 10**6)}
+        if sched["pte"]["partial"] and r.chance(p.get("p_pte_coincide", 0.2)):
+            sched["pte"]["coincide"] = True
     else:
         sched["pte"] = None
     scen["metrics"] = ["loss"]
@@ -384,6 +386,9 @@ def gen_scenario(root, profile=None):
         # diverging configurations: the script reports NaN at every level (ranked last by synchronous Hyperband)
         script["nan_metric"] = r.choice([0.3, 0.6])
         script["nan_all_levels"] = True
+    if r.chance(p.get("p_early_finish", 0.0)) and max_t >= 3 and kind.startswith(("hb_", "fifo", "median", "rea", "moasha")):
+        # some training scripts end on their own after a few epochs (exit code 0), before reaching a rung level
+        script["early_finish"] = {"p": r.choice([0.2, 0.5]), "at": r.randint(1, 2)}
     if r.chance(p["p_payload"]):
         script["payload"] = r.sample(["str", "nested", "numpy", "inf"], r.randint(1, 4))
     if r.chance(p["p_rejects"]):
@@ -505,6 +510,21 @@ def midpoint_free_points(scen, space):
         pts.append(cfg)
     if pte["dup"] and pts:
         pts.append(dict(pts[0]))
+    if pte.get("coincide") and pts:
+        # a second way of writing an initial point: one more key given explicitly, with the value the mid-point
+        # rule would fill in anyway -> the two coincide only AFTER imputation (documented: duplicates removed)
+        from dst.oracles.c06 import midpoints
+
+        specs = {n: s for n, s in scen["space"]}
+        base = dict(pts[-1 if not pte["dup"] else 0])
+        missing = [k for k in keys if k not in base]
+        for k in missing:
+            mp = midpoints(specs[k])
+            if len(mp) == 1:
+                twin = dict(base)
+                twin[k] = mp[0]
+                pts.append(twin)
+                break
     return pts
 
 
